@@ -186,6 +186,9 @@ structure Env where
   infoOn : Bool := true        -- the logger's level lets `Info` through
   critOn : Bool := true        -- … `Critical`
   waitOnExit : Bool := true    -- `wait_for_queues_to_empty_before_exit`
+  /-- the handler's wait for its flush request ends when the backend thread is gone (candidate repair of F27,
+      `findings/F27_candidate_repair.diff`; extracted: `flushEndsWhenBackendGone`; the current code waits for ever) -/
+  flushGivesUp : Bool := false
   deriving DecidableEq, Repr, Inhabited
 
 def Fe.log (f : Fe) (x : Item) : Fe := { f with queue := f.queue ++ [x] }
@@ -202,7 +205,10 @@ def exec (e : Env) (sig : Sig) : List Action → (restored pending : Bool) → F
   | .setAlarm :: rest, r, p, f => exec e sig rest r p f
   | .logNotice :: rest, r, p, f => exec e sig rest r p (if e.infoOn then f.log .notice else f)
   | .logCritical :: rest, r, p, f => exec e sig rest r p (if e.critOn then f.log .critical else f)
-  | .flush :: rest, r, p, f => if e.backendRunning then exec e sig rest r p f.drain else (f, .hangs)
+  | .flush :: rest, r, p, f =>
+    if e.backendRunning then exec e sig rest r p f.drain
+    else if e.flushGivesUp then exec e sig rest r p f   -- nobody serves it: the request stays queued, the handler goes on
+    else (f, .hangs)
   | .exitSuccess :: _, _, _, f =>
     -- `exit` → the `atexit` handler → `stop_backend_thread` → `_exit` drain (if enabled) → join
     (if e.backendRunning && e.waitOnExit then f.drain else f, .exit0)
